@@ -452,3 +452,19 @@ benign("c18-slice-read-single-copy", "C18", IONS,
 benign("c18-take-min-as-u64", "C18", IONS, "let at_most = (self.limit as usize).min(buf.len());", "let at_most = self.limit.min(buf.len() as u64) as usize;")
 rename("rn-c18-take-locals", "C18", IONS, "at_most", "cap")
 rename("rn-c18-bytes", "C18", IONS, "bytes", "got")
+
+
+# ---- independently produced behaviour-preserving refactorings (selftest/patches/ben-*.diff) --------
+# every check must stay silent on each of them; cases listed in KNOWN_BRITTLE are shapes the rules do not yet
+# see through (documented in DESIGN.md section 11) and are reported, not hidden
+def _benign_corpus():
+    import os
+    import re
+    root = os.path.join(os.path.dirname(os.path.abspath(__file__)), "patches")
+    allp = ["C%02d" % i for i in range(1, 21)]
+    for f in sorted(os.listdir(root)) if os.path.isdir(root) else []:
+        if re.fullmatch(r"ben-C\d\d-\d+\.diff", f):
+            patch_case(f[:-5], "benign", allp, "selftest/patches/" + f)
+
+
+_benign_corpus()
